@@ -86,6 +86,7 @@ var c08Menu = []string{
 	"pretty.JSON", "pretty.SEN", "alt.Decompose", "alt.Generify", "alt.Recompose", "gen.Parser",
 	"jp.Get", "jp.First", "jp.Has", "jp.Locate", "jp.Walk", "jp.Set", "jp.Del", "jp.Modify", "jp.Remove", "Script.Match", "Script.Eval",
 	"sen.Unmarshal", "oj.Match",
+	"oj.ValidateReader", "oj.TokenizeLoad", "oj.MatchLoad", "sen.Tokenize", "sen.Match", "sen.MatchLoad", "pretty.WriteJSON", "oj.MustParse", "sen.MustParse", "alt.Alter", "alt.Dup", "jp.String",
 	// aborted calls: the error paths run concurrently with everybody else's calls
 	"oj.Marshal(unencodable)", "oj.Marshal(failing Marshaler)", "oj.JSON(panicking Simplifier)", "oj.Write(failing writer)", "sen.Write(failing writer)",
 	"sen.String(panicking Simplifier)", "oj.Load(reader error)", "oj.Parse(panicking callback)", "oj.Tokenize(panicking handler)", "sen.Parse(panicking callback)", "oj.Marshal(failing TextMarshaler)",
@@ -145,6 +146,7 @@ func drawOp08(t *rapid.T) *op08 {
 		o.Val = make(chan int)
 	case strings.Contains(o.Fn, "failing") || strings.Contains(o.Fn, "panicking") || strings.Contains(o.Fn, "reader error"):
 	case strings.HasPrefix(o.Fn, "oj.JSON"), strings.HasPrefix(o.Fn, "oj.Marshal"), strings.HasPrefix(o.Fn, "oj.Write"), strings.HasPrefix(o.Fn, "sen.String"), o.Fn == "sen.Bytes", o.Fn == "sen.Write", strings.HasPrefix(o.Fn, "pretty."), o.Fn == "alt.Decompose":
+		// (pretty.WriteJSON included)
 		o.Val, o.Desc = drawVal08(t)
 		// package-level calls without options write maps in Go's map order: keep those order independent
 		if !strings.Contains(o.Fn, "opts") && !strings.HasPrefix(o.Fn, "pretty.") && o.Fn != "alt.Decompose" {
@@ -323,6 +325,49 @@ func (o *op08) exec() (r ret08) {
 	case "Script.Match":
 		s := c08Scripts[o.B%len(c08Scripts)]
 		r.canon = fmt.Sprint(s.Match(map[string]any{"d": int64(o.A % 4), "x": []string{"y", "z", "q"}[o.A%3], "s": []string{"str", "stir", "x"}[o.A%3], "arr": []any{1, 2}}), s.Match(int64(o.A%4)))
+	case "oj.ValidateReader":
+		rd := sim.NewSimReader(doc(o.A), &sim.Schedule{Every: 1 + o.B%5, FailAt: -1})
+		r.canon = canonDocs(oj.ValidateReader(rd) != nil, nil)
+	case "oj.TokenizeLoad":
+		h := newBuilderHandler()
+		rd := sim.NewSimReader(doc(o.A), &sim.Schedule{Every: 1 + o.B%5, FailAt: -1})
+		err := oj.TokenizeLoad(rd, h)
+		r.canon = canonDocs(err != nil, h.docs)
+	case "oj.MatchLoad":
+		var hits []string
+		rd := sim.NewSimReader(doc(o.A), &sim.Schedule{Every: 1 + o.B%5, FailAt: -1})
+		err := oj.MatchLoad(rd, func(p jp.Expr, v any) { hits = append(hits, p.String()+"="+ref.Exact(v)) }, c08Exprs[o.B%5])
+		r.canon = canonDocs(err != nil, []any{strings.Join(hits, ";")})
+	case "sen.Tokenize":
+		h := newBuilderHandler()
+		err := sen.Tokenize(senDoc(o.A), h)
+		r.canon = canonDocs(err != nil, h.docs)
+	case "sen.Match":
+		var hits []string
+		err := sen.Match(senDoc(o.A), func(p jp.Expr, v any) { hits = append(hits, p.String()+"="+ref.Exact(v)) }, c08Exprs[o.B%5])
+		r.canon = canonDocs(err != nil, []any{strings.Join(hits, ";")})
+	case "sen.MatchLoad":
+		var hits []string
+		rd := sim.NewSimReader(senDoc(o.A), &sim.Schedule{Every: 1 + o.B%5, FailAt: -1})
+		err := sen.MatchLoad(rd, func(p jp.Expr, v any) { hits = append(hits, p.String()+"="+ref.Exact(v)) }, c08Exprs[o.B%5])
+		r.canon = canonDocs(err != nil, []any{strings.Join(hits, ";")})
+	case "pretty.WriteJSON":
+		sw := sim.NewSimWriter(-1)
+		op := *opts(o.A)
+		op.WriteLimit = 1 + o.B
+		err := pretty.WriteJSON(sw, o.Val, float64(20+o.A*5)+0.3, o.B%2 == 0, &op)
+		text(sw.Buf, err)
+	case "oj.MustParse":
+		r.canon = ref.Exact(oj.MustParse(doc(o.A % 5)))
+	case "sen.MustParse":
+		r.canon = ref.Exact(sen.MustParse(senDoc(o.A % 2)))
+	case "alt.Alter":
+		r.canon = ref.Exact(alt.Alter(privateData(o.A)))
+	case "alt.Dup":
+		r.canon = ref.Exact(alt.Dup(privateData(o.A)))
+	case "jp.String":
+		x := c08Exprs[o.B%len(c08Exprs)]
+		r.canon = x.String() + " " + x.BracketString() + " " + c08Scripts[o.A%len(c08Scripts)].String()
 	case "oj.Marshal(unencodable)":
 		text(oj.Marshal([]any{true, "x", o.Val}))
 	case "oj.Marshal(failing Marshaler)":
